@@ -431,3 +431,17 @@ Proof.
   apply existsb_exists in Hok as (a & Ha & Hka). exists a. split; [exact Ha|].
   eapply sig_assign_binds_partial; eauto.
 Qed.
+
+(* a union on the accepted side: whichever member the value is at run time binds every call
+   the expected signature binds *)
+Theorem union_accepted_sound : forall e members npos kws,
+  valid_sig e = true -> (forall a, In a members -> valid_sig a = true) ->
+  (forall a, In a members -> double_fill e a = false) ->
+  names_nodup kws = true -> union_accepted_ok e members = true ->
+  py_bind e npos kws = true ->
+  forall a, In a members -> py_bind a npos kws = true.
+Proof.
+  intros e members npos kws Hve Hva Hg Hk Hok Hb a Ha.
+  unfold union_accepted_ok in Hok. rewrite forallb_forall in Hok.
+  eapply sig_assign_binds_partial; eauto.
+Qed.
